@@ -119,38 +119,58 @@ def converse(ctx, prog, rows, where):
 
 
 def tokenizer_rules(ctx, prog):
-    """Tokenizer::token drains the decoder on every error (so the iterator ends after an error, whoever owns the decoder);
-    next() maps exactly the end-of-input class to None"""
-    ctx.rules_run.append('T-TOKENIZER: Tokenizer::token moves the position to the end of the input on every error path and never on success; next() maps exactly the end-of-input class to None')
+    """Tokenizer::token, interpreted for every kind of decoder it can hold (owned / borrowed) with `decode()` succeeding or
+    failing: on every error return the decoder is left at the end of the input (so the iterator ends after an error); on success
+    the position is whatever decode() left.  next() maps exactly the end-of-input class to None."""
+    from ..absint import Fork
+    from ..prims import ok, err
+    ctx.rules_run.append('T-TOKENIZER: Tokenizer::token interpreted for owned and borrowed decoders x decode() Ok/Err: every error return leaves the position at input().len(), success never moves it; next() maps exactly the end-of-input class to None')
     tok = prog.one("minicbor::decode::tokenizer::Tokenizer::<'a, 'b>::token")
     if tok is None:
         ctx.fail_closed('T-TOKENIZER', 'Tokenizer::token not found')
     else:
+        def dec_decode(m, cfg, f, args, t):
+            cfg.st.events.append(('DECODE',))
+            return Fork([(None, ok(Atom('token'))), (None, err(Atom('error')))])
+        ov = dict(l1.decoder_overrides())
+        ov[l1.DEC + 'decode'] = dec_decode
+        m = Machine(prog, prims=prims.P, overrides=ov)
+        st = State()
         body = tok['body']
-        cfg = mir.CFG(body)
-        sets = [bi for bi, t in mir.iter_calls(body) if (mir.callee_path(t) or '').endswith("Decoder::<'b>::set_position")]
-        lens = [bi for bi, t in mir.iter_calls(body) if (mir.callee_path(t) or '').endswith('::len')]
-        inputs = [bi for bi, t in mir.iter_calls(body) if (mir.callee_path(t) or '').endswith("Decoder::<'b>::input")]
-        # the Err arm: blocks reachable only through the discriminant==1 edge of the decode result
-        decs = [bi for bi, t in mir.iter_calls(body) if 'decode' in (mir.callee_path(t) or '').split('::')[-1]]
-        sw = [bi for bi, b in enumerate(body['blocks']) if b['t']['k'] == 'switch']
-        good = bool(sets and lens and inputs and decs and sw)
-        if good:
-            s0 = body['blocks'][sw[0]]['t']
-            err_t = [v[1] for v in s0['vs'] if v[0] == 1]
-            ok_t = [v[1] for v in s0['vs'] if v[0] == 0]
-            et = err_t[0] if err_t else s0['o']
-            ot = ok_t[0] if ok_t else s0['o']
-            on_err = all(cfg.dominates(et, b) for b in sets)
-            ok_reach = cfg.reachable_from(ot)
-            on_ok = any(b in ok_reach for b in sets)
-            err_rets = [x for x in cfg.reachable_from(et, avoid=sets) if body['blocks'][x]['t']['k'] == 'return']
-            if on_err and not on_ok and not err_rets:
-                ctx.ok('T-TOKENIZER', 'token: drain dominates every error return, absent from the success path')
+        names = dict(body['names'])
+        args = [m.make_value(st, body['locals'][i], names.get(i, 'a%d' % i)) for i in range(1, body['argc'] + 1)]
+        where = mir.loc(tok['sp'])
+        try:
+            outs = m.run(tok, args, st)
+        except Abort as e:
+            outs = None
+            ctx.fail_closed('T-TOKENIZER', 'Tokenizer::token cannot be interpreted: %s' % e)
+        kinds = set()
+        for o in outs or []:
+            ch = ','.join('%s=%s' % kv for kv in (o.st.extra.get('choices') or ())) or 'decoder=?'
+            if o.kind != 'return':
+                ctx.violation('T-TOKENIZER', 'total|' + ch, 'token() does not return: %s' % o.why, where)
+                continue
+            kinds.add(ch)
+            res = l1.result_kind(o.value)
+            sets = [e for e in o.st.events if e[0] == 'SETPOS']
+            ndec = len([e for e in o.st.events if e[0] == 'DECODE'])
+            if ndec != 1:
+                ctx.violation('T-TOKENIZER', 'decode|' + ch, 'token() calls decode() %d times on one path' % ndec, where)
+            elif res == 'Ok':
+                if sets:
+                    ctx.violation('T-TOKENIZER', 'ok-moves|' + ch, 'on success (%s) the position is set to %r' % (ch, sets[-1][1]), where)
+                else:
+                    ctx.ok('T-TOKENIZER', 'ok|' + ch)
             else:
-                ctx.violation('T-TOKENIZER', 'drain', 'Tokenizer::token: the drain (set_position(input().len())) %s' % ('is reachable on the success path' if on_ok else 'does not cover every error return: after an error the iterator could yield again from the same bytes'), mir.loc(tok['sp']))
-        else:
-            ctx.violation('T-TOKENIZER', 'drain-shape', 'Tokenizer::token no longer drains the decoder with set_position(input().len()) on errors', mir.loc(tok['sp']))
+                end = sets[-1][1] if sets else None
+                if isinstance(end, Int) and end == Int.sym('inputlen'):
+                    ctx.ok('T-TOKENIZER', 'err|' + ch)
+                else:
+                    ctx.violation('T-TOKENIZER', 'drain|' + ch, 'after a decoding error (%s) the decoder is left at %s instead of the end of the input: the iterator would yield from the same bytes again and never end'
+                                  % (ch, 'position %r' % (end,) if sets else 'the position where decoding stopped'), where)
+        if outs is not None and len(kinds) < 2:
+            ctx.fail_closed('T-TOKENIZER', 'expected paths for an owned and a borrowed decoder, found %r' % sorted(kinds))
     nxt = prog.one("<minicbor::decode::tokenizer::Tokenizer<'a, 'b> as std::iter::Iterator>::next")
     if nxt is None:
         ctx.fail_closed('T-TOKENIZER', 'Tokenizer::next not found')
